@@ -465,7 +465,7 @@ def _faces(sh, rec):
                 pats = sorted({PATTERNS[int(cls[tuple(b)])] for b in bad[:2000]})
                 b = tuple(int(x) for x in bad[0])
                 rec.violation(
-                    f"face-flux-mismatch:{d}d-ax{ax}",
+                    f"face-flux-mismatch:{d}d-{'xyz'[d - 1 - ax]}",
                     f"{len(bad)} faces where the flux leaving cell i differs from the flux entering cell i+1 (max {r:.3g} tol), upwind patterns {pats}; "
                     f"first: transverse/face index {b}, out {out_i[b]!r} vs in {in_j[b]!r}, v_i={vm[tr][..., i][b]!r} v_i+1={vm[tr][..., i + 1][b]!r} {meta}",
                     {"meta": meta, "axis": ax, "f": f, "v": v, "front": outs[0], "back": outs[1]},
